@@ -73,6 +73,14 @@ func (ft *ftrans) exprU(e *env, x ast.Expr) string {
 		case token.MUL:
 			a := ft.exprU(e, x.X)
 			return app("wmul", a, ft.exprU(e, x.Y))
+		case token.ADD, token.SUB:
+			// wrapping uint64 arithmetic: the low word of bits.Add64 / bits.Sub64 with carry 0
+			a := ft.exprU(e, x.X)
+			f := "add64"
+			if x.Op == token.SUB {
+				f = "sub64"
+			}
+			return "fst (" + app(f, a, ft.exprU(e, x.Y)) + " 0)"
 		case token.OR:
 			a := ft.exprU(e, x.X)
 			return app("or64", a, ft.exprU(e, x.Y))
